@@ -4,6 +4,7 @@ package sim
 
 import (
 	"fmt"
+	"sort"
 	"strings"
 )
 
@@ -80,6 +81,13 @@ func oracleC02(x *Exec, so *StepObs) {
 		}
 		newIDs := idSet(ManifestIDs(lr.Manifest, ns))
 		prevDeployed := so.Before.Deployed()
+		if len(prevDeployed) > 1 {
+			// a ledger with two revisions marked deployed is itself a recorded finding (install --replace over a failed
+			// revision); "the previously deployed revision" is then the newest of them, the one Helm and the user mean
+			sort.Ints(prevDeployed)
+			prevDeployed = prevDeployed[len(prevDeployed)-1:]
+			x.Sim.Probe("c02-two-deployed-before")
+		}
 		if len(prevDeployed) == 0 {
 			// no revision is marked deployed (a failed operation re-labelled it): "the previously deployed
 			// manifest" is then that of the most recent revision that was observed deployed and still exists
